@@ -70,14 +70,53 @@ class _Canon(ast.NodeTransformer):
                 return 2
         return 0
 
+    # ---- emptiness tests in a boolean position: len(x) > 0 / != 0 / >= 1 -> x ;  len(x) == 0 / < 1 -> not x
+    @staticmethod
+    def _truth(e):
+        if isinstance(e, ast.Compare) and len(e.ops) == 1 and isinstance(e.left, ast.Call) and isinstance(e.left.func, ast.Name) and e.left.func.id == "len" \
+                and len(e.left.args) == 1 and isinstance(e.comparators[0], ast.Constant) and isinstance(e.comparators[0].value, int):
+            op, k, x = e.ops[0], e.comparators[0].value, e.left.args[0]
+            if (isinstance(op, ast.Gt) and k == 0) or (isinstance(op, ast.NotEq) and k == 0) or (isinstance(op, ast.GtE) and k == 1):
+                return x
+            if (isinstance(op, ast.Eq) and k == 0) or (isinstance(op, ast.Lt) and k == 1) or (isinstance(op, ast.LtE) and k == 0):
+                return ast.copy_location(ast.UnaryOp(op=ast.Not(), operand=x), e)
+        return e
+
+    def visit_BoolOp(self, n):
+        self.generic_visit(n)
+        n.values = [self._truth(v) for v in n.values]
+        return n
+
+    def visit_While(self, n):
+        self.generic_visit(n)
+        n.test = self._truth(n.test)
+        return n
+
+    def visit_comprehension(self, n):
+        self.generic_visit(n)
+        n.ifs = [self._truth(c) for c in n.ifs]
+        return n
+
     def visit_UnaryOp(self, n):
         self.generic_visit(n)
+        if isinstance(n.op, ast.Not):
+            n.operand = self._truth(n.operand)
+            if isinstance(n.operand, ast.UnaryOp) and isinstance(n.operand.op, ast.Not):
+                pass
         if isinstance(n.op, ast.Not) and isinstance(n.operand, ast.Compare) and len(n.operand.ops) == 1 and type(n.operand.ops[0]) in self.NEG:
             c = n.operand
             c.ops = [self.NEG[type(c.ops[0])]()]
             return c
-        if isinstance(n.op, ast.Not) and isinstance(n.operand, ast.UnaryOp) and isinstance(n.operand.op, ast.Not) and False:
-            return n.operand.operand
+        # not any(P(x) for x in s)  ->  all(not P(x) for x in s);   not all(..)  ->  any(not ..)
+        if isinstance(n.op, ast.Not) and isinstance(n.operand, ast.Call) and isinstance(n.operand.func, ast.Name) and n.operand.func.id in ("any", "all") \
+                and len(n.operand.args) == 1 and not n.operand.keywords and isinstance(n.operand.args[0], (ast.GeneratorExp, ast.ListComp)):
+            c = n.operand
+            comp = c.args[0]
+            neg = self.visit(ast.UnaryOp(op=ast.Not(), operand=comp.elt))
+            comp.elt = ast.copy_location(neg, comp.elt) if hasattr(comp.elt, "lineno") else neg
+            ast.fix_missing_locations(comp)
+            c.func = ast.copy_location(ast.Name(id="all" if c.func.id == "any" else "any", ctx=ast.Load()), c.func)
+            return c
         return n
 
     def visit_Compare(self, n):
@@ -92,6 +131,7 @@ class _Canon(ast.NodeTransformer):
 
     def visit_If(self, n):
         self.generic_visit(n)
+        n.test = self._truth(n.test)
         plain_else = n.orelse and not (len(n.orelse) == 1 and isinstance(n.orelse[0], ast.If))
         if plain_else and isinstance(n.test, ast.UnaryOp) and isinstance(n.test.op, ast.Not):
             n.test = n.test.operand
@@ -154,6 +194,7 @@ class _Canon(ast.NodeTransformer):
 
     def visit_IfExp(self, n):
         self.generic_visit(n)
+        n.test = self._truth(n.test)
         if isinstance(n.test, ast.UnaryOp) and isinstance(n.test.op, ast.Not):
             n.test = n.test.operand
             n.body, n.orelse = n.orelse, n.body
